@@ -493,6 +493,13 @@ def run_history(case, obs, prng):
             except Exception as exc:
                 obs.violation('assign-wrong-exception-type', f'{cname}.{p} = {v!r} raised {type(exc).__name__}: {exc}')
                 continue
+            if accepted and vid == 'arr0d' and isinstance(v, np.ndarray):
+                # a 0-d array taken as a size is fine only if the region does not keep the caller's array: writing into that array
+                # afterwards must not reach the region
+                v[()] = -1.0
+                still = getattr(region, p)
+                obs.check(bool(np.all(np.asarray(still) > 0)), 'accepted-array-size-aliases-callers-array',
+                          f'{cname}.{p} accepted a 0-d array and kept it: after the caller wrote -1 into the array, {cname}.{p} is {still!r}', 'array-size-not-aliased')
             if accepted and vid in AMBIG.get(kind, []):
                 setattr(region, p, make_valid(kind, prng) if p not in ANNULUS_PAIRS and p not in ANNULUS_PAIRS.values() else getattr(S.build(base_spec(prng, cname)), p))
                 # re-establish ordering for annuli
@@ -555,7 +562,8 @@ def run_meta(case, obs, prng):
                 obs.ok(1, 'meta-event')
             obs.check((dict(cls.key_mapping), list(cls.valid_keys)) == km0, 'meta-class-tables-changed',
                       f'{case["which"]}: class-level key tables changed: key_mapping={cls.key_mapping}', 'meta-event')
-        op = prng.choice(['setitem', 'setitem', 'update-dict', 'update-kw', 'update-pairs', 'setdefault', 'ior', 'ctor', 'fromkeys', 'or-result'])
+        op = prng.choice(['setitem', 'setitem', 'update-dict', 'update-kw', 'update-pairs', 'setdefault', 'ior', 'ctor', 'fromkeys', 'or-result',
+                          'ior-other-kind', 'update-other-kind'])
         nvalid = prng.randint(0, 3)
         items = [(k, prng.choice(['v', 1, [1, 2]])) for k in prng.sample(keys + list(aliases), nvalid)]
         # never an alias together with its target in one operation (the later one would win)
@@ -567,6 +575,15 @@ def run_meta(case, obs, prng):
         if inject:
             pos = prng.randint(0, len(items))
             items = items[:pos] + [(badkey, 1)] + items[pos:]
+        other_kind = None
+        if op in ('ior-other-kind', 'update-other-kind'):
+            # the right-hand side is itself a Meta object - of the OTHER kind (a RegionVisual merged into a RegionMeta or the reverse):
+            # its keys are outside this vocabulary like any other foreign key
+            import regions as _rg
+            ocls = _rg.RegionVisual if cls is _rg.RegionMeta else _rg.RegionMeta
+            badkey = 'color' if ocls is _rg.RegionVisual else 'label'
+            other_kind = ocls({badkey: 'red'})
+            items, inject = [(badkey, 'red')], True
         if not items:
             continue
         desc = f'{op} with keys {[k for k, _ in items]}'
@@ -590,6 +607,10 @@ def run_meta(case, obs, prng):
                 m.setdefault(k, v)
             elif op == 'ior':
                 m |= dict(items)
+            elif op == 'ior-other-kind':
+                m |= other_kind
+            elif op == 'update-other-kind':
+                m.update(other_kind)
             elif op == 'ctor':
                 if not all(isinstance(k, str) and k.isidentifier() for k, _ in items):
                     continue
@@ -612,7 +633,7 @@ def run_meta(case, obs, prng):
                     obs.ok(1, 'meta-event')
                     continue
                 stored_bad = [k for k in dict.keys(target) if k not in keys]
-                key = K_IOR if op == 'ior' else 'meta-accepts-invalid-key:' + op
+                key = K_IOR if op in ('ior', 'ior-other-kind') else 'meta-accepts-invalid-key:' + op
                 if stored_bad:
                     obs.violation(key, f'{case["which"]} {desc}: key {badkey!r} outside the vocabulary was stored')
                     if target is m:
